@@ -43,6 +43,8 @@ pub struct Knobs {
     /// size of the ephemeral port range (0: the Linux default 32768..60999); a small range
     /// makes a new socket reuse the port of one that was just closed
     pub eph_ports: u16,
+    /// probability that a UDP sendmsg of the system under test fails (ENOBUFS, EPERM, ...)
+    pub send_err_p: f64,
 }
 
 impl Default for Knobs {
@@ -61,6 +63,7 @@ impl Default for Knobs {
             max_seg: 0,
             faults_until_ns: u64::MAX,
             eph_ports: 0,
+            send_err_p: 0.0,
         }
     }
 }
@@ -80,6 +83,8 @@ pub struct OutEv {
     pub fd: Fd,
     pub kind: OutKind,
     pub errno: Option<Errno>,
+    /// the error was injected by the simulator (a failing system call), not earned
+    pub injected: bool,
 }
 
 #[derive(Debug)]
@@ -212,6 +217,7 @@ pub struct KInner {
     pub log: EvLog,
     pub out: Vec<OutEv>,
     out_seq: u64,
+    next_out_injected: bool,
     udp_eps: HashMap<(IpAddr, u16), tokio::sync::mpsc::UnboundedSender<UdpIn>>,
     tcp_listeners: HashMap<SocketAddr, ActorListener>,
     pub stats: BTreeMap<String, u64>,
@@ -322,7 +328,8 @@ impl KInner {
             OutKind::Icmp6 { ifidx, data, .. } => ("out.icmp6", *ifidx as u64, data),
         };
         self.log.ev(at_ns, tag, a, errno.unwrap_or(0) as u64, data);
-        self.out.push(OutEv { seq: self.out_seq, at_ns, fd, kind, errno });
+        let injected = std::mem::take(&mut self.next_out_injected);
+        self.out.push(OutEv { seq: self.out_seq, at_ns, fd, kind, errno, injected });
         self.out_seq
     }
 }
@@ -390,6 +397,7 @@ impl Kernel {
                 log: EvLog { hash: 0, n: 0, trace: if trace { Some(vec![]) } else { None } },
                 out: vec![],
                 out_seq: 0,
+                next_out_injected: false,
                 udp_eps: HashMap::new(),
                 tcp_listeners: HashMap::new(),
                 stats: BTreeMap::new(),
@@ -1419,6 +1427,12 @@ impl SimKernel for KHandle {
                         Some(i) if buf.len() > i.mtu as usize + 14 => Some(libc::EMSGSIZE),
                         Some(_) => None,
                     };
+                    let mut err = err;
+                    if err.is_none() && k.knobs.send_err_p > 0.0 && k.faults_on() && k.rng.chance(k.knobs.send_err_p) {
+                        err = Some(*k.rng.pick(&[libc::ENOBUFS, libc::ENETDOWN]));
+                        k.next_out_injected = true;
+                        k.stat("fault.sendmsg_error");
+                    }
                     k.record_out(fd, kindv, err);
                     match err {
                         Some(e) => Err(e),
@@ -1480,6 +1494,11 @@ impl SimKernel for KHandle {
                     });
                     if err.is_none() && buf.len() > k.iface(ifidx).map(|i| i.mtu as usize).unwrap_or(1500).max(1280) - 40 + 65535 {
                         err = Some(libc::EMSGSIZE);
+                    }
+                    if err.is_none() && k.knobs.send_err_p > 0.0 && k.faults_on() && k.rng.chance(k.knobs.send_err_p) {
+                        err = Some(*k.rng.pick(&[libc::ENOBUFS, libc::EPERM, libc::ENETUNREACH]));
+                        k.next_out_injected = true;
+                        k.stat("fault.sendmsg_error");
                     }
                     k.record_out(fd, OutKind::Icmp6 { ifidx, src, dst: *dst.ip(), data: buf.to_vec() }, err);
                     match err {
@@ -1572,6 +1591,12 @@ impl SimKernel for KHandle {
                     };
                     if err.is_none() && buf.len() > 65507 {
                         err = Some(libc::EMSGSIZE);
+                    }
+                    if err.is_none() && k.knobs.send_err_p > 0.0 && k.faults_on() && k.rng.chance(k.knobs.send_err_p) {
+                        /* a failing system call: no buffer space, a firewall rule, a route gone */
+                        err = Some(*k.rng.pick(&[libc::ENOBUFS, libc::EPERM, libc::ENETUNREACH]));
+                        k.next_out_injected = true;
+                        k.stat("fault.sendmsg_error");
                     }
                     let src = SocketAddr::new(src_ip, lport);
                     let seq = k.record_out(fd, OutKind::Udp { src, dst: dst_real, data: buf.to_vec() }, err);
